@@ -19,7 +19,7 @@ type Ctx struct {
 type Spec struct {
 	ID           string
 	Explanation  string
-	ExtraConfigs bool // thorough tier repeats under GOARCH=386 and -tags gofuzz
+	ExtraConfigs bool // thorough tier repeats under -tags gofuzz (the tree does not compile for GOARCH=386)
 	Run          func(*Ctx)
 }
 
